@@ -20,6 +20,14 @@ pub struct Call {
     /// Bracket the call with `debug::log_start` / `debug::log_finish`.
     #[serde(default, skip_serializing_if = "std::ops::Not::not")]
     pub session: bool,
+    /// History filler: the call is executed like any other but its own outcome is not
+    /// compared (long histories of hundreds of calls; what is judged is what comes after).
+    #[serde(default, skip_serializing_if = "std::ops::Not::not")]
+    pub warm: bool,
+    /// The host changes the `log` crate's process-global maximum level before this call
+    /// (0 = Off ... 5 = Trace); sequential plans only.
+    #[serde(default, skip_serializing_if = "Option::is_none")]
+    pub log_level: Option<u8>,
 }
 
 impl Call {
@@ -29,6 +37,8 @@ impl Call {
             hash_base: None,
             panic_at: None,
             session: false,
+            warm: false,
+            log_level: None,
         }
     }
 }
@@ -92,10 +102,25 @@ pub struct Plan {
     /// stays parked until another caller reaches the same address.
     #[serde(default, skip_serializing_if = "is_zero")]
     pub atomic_hold_mean: u32,
+    /// Conflict-directed holds park a caller only before atomics in a seeded 1/atomic_focus of
+    /// the static addresses (0 or 1 = everywhere).
+    #[serde(default, skip_serializing_if = "is_zero")]
+    pub atomic_focus: u32,
+    /// Threads engine: atomic operations a caller may perform without a scheduling point
+    /// before it is made to yield (0 = 20 000). A caller that spins on something another
+    /// caller has to do is starved of that for at most this long - a large value models a
+    /// machine with more runnable threads than cores.
+    #[serde(default, skip_serializing_if = "is_zero")]
+    pub spin_guard: u32,
     /// Fault `clock`: nanoseconds the simulated clock advances per reading (0 = the
     /// reference's 1 µs). A large step models a stalled or heavily loaded machine.
     #[serde(default, skip_serializing_if = "is_zero64")]
     pub clock_step_ns: u64,
+    /// The `log` crate's process-global maximum level while the plan runs (0 = Off ... 5 =
+    /// Trace; absent = Trace, which is also the reference context's). It decides whether the
+    /// arguments of the library's `log::debug!` calls are evaluated at all.
+    #[serde(default, skip_serializing_if = "Option::is_none")]
+    pub log_level: Option<u8>,
 }
 
 fn is_zero64(x: &u64) -> bool {
